@@ -425,7 +425,7 @@ fn io_fail(out: &mut Vec<Finding>, oracle: &str, ic: &IoCase, side: &str, plan: 
         &["C08"],
         oracle,
         &[("container", format!("{:?}", ic.c)), ("side", side.to_string()), ("deviations", kinds.join(",")), ("type_features", ic.e.ty.feature_string())],
-        format!("{} {:?} {} plan[{}]{} chunks{:?}: {}", ic.e.ty.describe(), ic.c, side, devs.join(" "), if plan.sticky { "" } else { " (transient)" }, plan.chunks, msg),
+        format!("{} {:?} {} plan[{}]{} chunks{:?}: {}", ic.e.ty.describe(), ic.c, side, devs.join(" "), if plan.sticky || plan.devs.is_empty() { "" } else { " (transient)" }, plan.chunks, msg),
         json!({"kind": "io", "family": ic.e.family, "rust_type": ic.e.ty.rust(), "type": ic.e.ty.describe(), "version": ic.ver, "file_version": ic.file_ver, "writer_type": ic.writer.map(|w| w.ty.rust()), "container": format!("{:?}", ic.c), "side": side,
             "devs": plan.devs.iter().map(|(i, d)| json!([i, format!("{:?}", d)])).collect::<Vec<_>>(), "chunks": plan.chunks, "sticky": plan.sticky, "value": to_json(ic.val), "message": msg}),
     ));
